@@ -683,6 +683,24 @@ def constant_obligations(rep):
                         bad.append((repr(v), shape, "evaluates to %r instead of %r" % (got, want)))
                 except Exception as e:
                     bad.append((repr(v), shape, "raised %r" % (e,)))
+        # complex constants: both components bit for bit (signed zeros)
+        cbad = []
+        for v in (complex(-1, 0.0), complex(-1, -0.0), complex(-0.0, 2.0), complex(0.0, -3.0), complex(1.5, float("inf")), complex(-0.0, -0.0)):
+            def fz(ctx, z: complex):
+                return ctx.constant(v, z)
+
+            try:
+                with warnings.catch_warnings(), numpy.errstate(all="ignore"):
+                    warnings.simplefilter("ignore")
+                    ctx = fa.Context(paths=[fa.algorithms])
+                    g = ctx.trace(fz, complex if tname == "python" else numpy.complex128)
+                    got = numpy.complex128(target.as_function(g)(0j))
+                want = numpy.complex128(v)
+                if (got.real.tobytes(), got.imag.tobytes()) != (want.real.tobytes(), want.imag.tobytes()):
+                    cbad.append((repr(v), "evaluates to %r" % (got,)))
+            except Exception as e:
+                cbad.append((repr(v), "raised %r" % (e,)))
+        rep.add(core.decided("C05/O5/constants/%s/complex-signed-zeros" % tname, PROP, not cbad, functions=fnid, text="complex constants evaluate to their value, both components bit for bit", detail=dict(bad=[str(b) for b in cbad]), meta=dict(target=tname, kind="constants-complex", bad=[str(b) for b in cbad[:4]])))
         # a payload narrower than the reference operand (numpy.float32(0.1) like a double) is its own obligation
         narrow = [b for b in bad if "float32" in b[0]]
         bad = [b for b in bad if "float32" not in b[0]]
